@@ -164,6 +164,36 @@ pub fn run(ctx: &Ctx) {
     let thorough = ctx.run.is_thorough();
     *ctx.run.rule.lock().unwrap() = "universes over the escape-width boundary scalars (U+007F/80, U+00E9, U+0100, U+0FFF/1000, U+FFFF/10000, U+FFFFF/100000, U+10FFFF, U+1F4A9), combining sequences and grapheme clusters x {e, e+u} x base settings; scalar sweep with {e, e+u} (quick: slice around every boundary; thorough: all scalars); per case: ASCII-only, escape multiset = non-ASCII content of the unescaped build, surrogate well-formedness, product exploration of the escaped build (surrogates re-paired) against the unescaped build and of the textually decoded pattern; non-trivial as in C01 (every case contains a non-ASCII or boundary scalar); distinct by hash".into();
     sweep(ctx, &blocks(thorough), check_case);
+    // the escaping setter called on a builder that has ALREADY been built: the statement "with escaping enabled the
+    // output is pure ASCII ..." is about the builder's settings, whenever they were made
+    {
+        let u = Universe::new("U_adv(A_esc)", A_ESC, 2, 1, false);
+        let bad = std::sync::atomic::AtomicU64::new(0);
+        par_for(u.len(), |i| {
+            let t = u.set(i);
+            for (first, second) in [(None, false), (None, true), (Some(false), true), (Some(true), false)] {
+                ctx.run.eval();
+                let tt = t.clone();
+                let got = std::panic::catch_unwind(move || {
+                    let mut b = grex::RegExpBuilder::from(&tt);
+                    if let Some(f) = first {
+                        b.with_escaping_of_non_ascii_chars(f);
+                    }
+                    let _ = b.build();
+                    b.with_escaping_of_non_ascii_chars(second);
+                    b.build()
+                });
+                let want = Cfg::new(if second { E | U } else { E }).build(&t);
+                if let (Ok(g), Ok(w)) = (got, want) {
+                    if g != w {
+                        bad.fetch_add(1, std::sync::atomic::Ordering::Relaxed);
+                        crate::findings::report(ctx, viol("C11", "string", format!("escaping-set-after-a-build-not-honoured surrogates={second}"), &t, &Cfg::new(if second { E | U } else { E }), &g, json!({"expected": w, "history": [format!("escape({:?})", first), "build".to_string(), format!("escape({second})"), "build".to_string()]})));
+                    }
+                }
+            }
+        });
+        ctx.run.space(json!({"universe": u.name, "sets": u.len(), "settings": "histories [escape(a)?, build, escape(b), build] for a in {none, false, true}, b != a", "cases": u.len() * 4}));
+    }
     let list = crate::props::scalar_slice(thorough, &ctx.k);
     let cfgs = [Cfg::new(E), Cfg::new(E | U)];
     par_for(list.len(), |i| {
